@@ -341,6 +341,37 @@ var Scenarios = []Directed{
 		s.Restart()
 		s.Blocks(4, allHdr)
 	}},
+	{"self_unstake_after_restart", []string{"C11", "C10", "C12", "C07"}, fam(0), func(s *Script) {
+		// stakes created in one life of the process are released in the next one: a validator with delegators withdraws
+		// its only own stake (everybody is released), another one withdraws one of its two own stakes (it stays, smaller)
+		s.Blocks(2, allHdr)
+		s.Begin(allHdr) // 3
+		s.expect(OK(s.Stake(4, 1, "5e18")), "a4 -> a1")
+		s.expect(OK(s.Stake(2, 2, "3e18")), "a2 bonds 3 more to itself")
+		s.expect(OK(s.Stake(5, 2, "4e18")), "a5 -> a2")
+		s.End()
+		s.Blocks(1, allHdr)
+		s.Restart()
+		s.Begin(allHdr) // 5
+		if ids := s.StakeIDs(2, 2); len(ids) == 2 {
+			s.expect(OK(s.Unstake(2, 2, ids[0])), "a2 withdraws one of its two own stakes")
+		}
+		s.End()
+		s.Begin(allHdr) // 6
+		if ids := s.StakeIDs(1, 1); len(ids) == 1 {
+			s.expect(OK(s.Unstake(1, 1, ids[0])), "a1 withdraws its only own stake: a4 is released with it")
+		}
+		s.End()
+		s.Blocks(2, allHdr)
+		s.Restart()
+		s.Begin(allHdr) // 9
+		if ids := s.StakeIDs(2, 2); len(ids) == 1 {
+			s.Unstake(2, 2, ids[0]) // the other own stake: a5 is released
+		}
+		s.Stake(3, 3, "2e18")
+		s.End()
+		s.Blocks(6, allHdr)
+	}},
 	{"tiny_voter_slashed", []string{"C15", "C14", "C07"}, fam(4), func(s *Script) {
 		// powers 1,1,2,3 (total 7, slash ratio 50 %): half of power 1 is 0.  A voter of power 1 is accused after it voted:
 		// its recorded power stays 1 and its vote stays cast; with it the option holds 5 of 7, without it 4.
